@@ -235,6 +235,34 @@ func c01Gen(tier string, rng *rand.Rand, emit func(interface{})) {
 		}
 		emit(c01Case{Run: mwRun{EL: el, TL: tl, X1: toF64s(x1), X2: toF64s(x2), Alts: allAlts}})
 	}
+	// (b3) extreme tie shapes in one process: one huge tie group (in every position) next to 1..3 small
+	// ones, N = 35..50; before the calls the same process evaluates the exact distributions of ALL the
+	// other extreme shapes of the same (n1,n2) at the same U values (mwRun.WarmT)
+	shapes := [][2]int{{12, 23}}
+	perShape := 1 << 30 // every extreme shape of the quick (n1,n2): 141 cases
+	if thorough {
+		shapes = [][2]int{{12, 23}, {17, 18}, {25, 25}, {10, 25}, {20, 22}}
+		perShape = 1 << 30
+	}
+	for _, sh := range shapes {
+		n1, n2 := sh[0], sh[1]
+		all := extremeTies(n1 + n2)
+		step := 1
+		if len(all) > perShape {
+			step = len(all) / perShape
+		}
+		for k := 0; k < len(all); k += step {
+			t := all[(k+int(rng.Intn(step)))%len(all)]
+			var pool []float64
+			for i, g := range t {
+				for j := 0; j < g; j++ {
+					pool = append(pool, float64(i+1))
+				}
+			}
+			rng.Shuffle(len(pool), func(i, j int) { pool[i], pool[j] = pool[j], pool[i] })
+			emit(c01Case{Run: mwRun{EL: 50, TL: 25, X1: toF64s(pool[:n1]), X2: toF64s(pool[n1:]), Alts: allAlts, WarmT: all}})
+		}
+	}
 	// (c) degenerate: empty samples, all-equal samples
 	emit(c01Case{Run: mwRun{EL: 50, TL: 25, X1: nil, X2: toF64s([]float64{1, 2}), Alts: allAlts}})
 	emit(c01Case{Run: mwRun{EL: 50, TL: 25, X1: toF64s([]float64{1, 2}), X2: []F64{}, Alts: allAlts}})
